@@ -494,6 +494,16 @@ pub fn castle_case(rng: &mut Rng) -> RPos {
             p.rights[ci(us)][1] = Some(rf as u8);
         }
     }
+    // a second own rook (or queen) on the ENEMY back rank, on the file of one of our rights or of
+    // our king: leaving that square must not touch our rights
+    if rng.chance(1, 5) {
+        let files: Vec<i32> = (0..2).filter_map(|w| p.rights[ci(us)][w].map(|f| f as i32)).chain(std::iter::once(kf)).collect();
+        let f = *rng.pick(&files);
+        let far = rel_rank(us, 8);
+        if p.sq[idx(f, far)].is_none() {
+            p.sq[idx(f, far)] = Some((us, if rng.chance(3, 4) { Piece::Rook } else { Piece::Queen }));
+        }
+    }
     // extra own rook that carries no right
     if rng.chance(1, 6) {
         let s = idx(rng.range(0, 7) as i32, br);
